@@ -319,19 +319,79 @@ def as_fraction(s):
         return None
 
 
-def oracle_csv(out, rows, dialect, fmt="csv"):
-    fails = _oracle_csv(out, rows, dialect)
+CSV_COLS = None       # the column expressions of the shipped format (from Gen.csvColumns), set by Runner
+
+
+def py_join(s):
+    """report.cc fn_join, restated: a newline becomes backslash-n, nothing else changes"""
+    return s.replace("\n", "\\n")
+
+
+def expected_row(r, cols):
+    """What each csv column must hold, computed WITHOUT evaluating the column's own expression: from the
+    plain accessors the register printed (`%(date)`, `%(code)`, `%(payee)`, `%(account)` + `virtual`,
+    `%(commodity(amount))`, `verif_rational(amount)`, the state flags, `%(note)`).  Entries: ("eq", text),
+    ("qty", Fraction) or ("same", text) for a column this oracle has no independent reading of."""
+    out = []
+    for j, e in enumerate(cols):
+        ex = re.sub(r"\s+", "", e)
+        if ex == "date":
+            out.append(("eq", r.date))
+        elif ex == "code":
+            out.append(("eq", r.code))
+        elif ex == "payee":
+            out.append(("eq", r.payee))
+        elif ex == "display_account":
+            out.append(("eq", disp_account(r)))
+        elif ex == "commodity(scrub(display_amount))":
+            out.append(("eq", r.commodity))
+        elif ex == "quantity(scrub(display_amount))" and r.qty is not None:
+            out.append(("qty", r.qty))
+        elif ex == 'cleared?"*":(pending?"!":"")':
+            out.append(("eq", {"c": "*", "p": "!", "n": ""}[r.state]))
+        elif ex == "join(note|xact.note)":
+            out.append(("eq", py_join(r.note)))       # `note` of a posting already ends with the transaction's note (post.cc get_note)
+        else:
+            out.append(("same", r.csv[j]))
+    return out
+
+
+def raw_row(r, cols):
+    """the raw values of the columns, as the model's `ledgerCsvRecord` takes them (the note before join())"""
+    out = []
+    for j, (how, v) in enumerate(expected_row(r, cols)):
+        ex = re.sub(r"\s+", "", cols[j])
+        if ex == "join(note|xact.note)":
+            out.append(r.note)
+        elif how == "qty":
+            out.append(r.csv[j])
+        else:
+            out.append(v)
+    return out
+
+
+def joined_row(r, cols):
+    return [r.csv[j] if how == "qty" else v for j, (how, v) in enumerate(expected_row(r, cols))]
+
+
+def oracle_csv(out, rows, dialect, fmt="csv", cols=None):
+    fails = _oracle_csv(out, rows, dialect, cols or CSV_COLS)
     for f in fails[0]:
         f.fmt = fmt
     return fails
 
 
-def _oracle_csv(out, rows, dialect):
+def _oracle_csv(out, rows, dialect, cols):
     fails = []
     try:
         text = out.decode("utf-8")
     except UnicodeDecodeError as e:
-        return [Fail("csv", "document", "", None, "not UTF-8: %s" % e)], None
+        fs = [Fail("csv", "document", "", None, "not UTF-8: %s" % e)]
+        for r in rows:
+            for j, (how, w) in enumerate(expected_row(r, cols)):
+                if how != "qty" and nontrivial(w):
+                    fs.append(Fail("csv", kind_of_col(j), w, None, "document is not UTF-8: %s" % e))
+        return fs, None
     lines = text.split("\n")
     if lines[-1] != "":
         fails.append(Fail("csv", "document", "", None, "output does not end with a newline"))
@@ -344,30 +404,25 @@ def _oracle_csv(out, rows, dialect):
             break
         rec, err = csv_parse_line(lines[i], dialect)
         parsed_all.append(rec)
-        want = list(r.csv)
+        want = expected_row(r, cols)
+        texts = [w for how, w in want if how != "qty"]
         if rec is None or len(rec) != len(want):
             # the record is not readable as a whole: blame the fields in turn (localised later)
-            for j, w in enumerate(want):
-                if nontrivial(w):
+            for j, (how, w) in enumerate(want):
+                if how != "qty" and nontrivial(w):
                     fails.append(Fail("csv", kind_of_col(j), w, None, "record unreadable (%s): %s" % (err or "%d fields" % len(rec or []), lines[i])))
-            if not any(nontrivial(w) for w in want):
+            if not any(nontrivial(w) for w in texts):
                 fails.append(Fail("csv", "record", lines[i], None, err))
             continue
-        for j, (g, w) in enumerate(zip(rec, want)):
-            if g != w:
+        for j, (g, (how, w)) in enumerate(zip(rec, want)):
+            if how == "qty":
+                if as_fraction(g) != w:
+                    fails.append(Fail("csv", "quantity", str(w), g, "register quantity; line: " + lines[i]))
+            elif g != w:
                 fails.append(Fail("csv", kind_of_col(j), w, g, "line: " + lines[i]))
-        # against the plain register columns (only where the template still has these columns)
-        if len(want) == 8:
-            if rec[0] != r.date:
-                fails.append(Fail("csv", "date", r.date, rec[0], "register date"))
-            if rec[2] != r.payee:
-                fails.append(Fail("csv", "payee", r.payee, rec[2], "register payee"))
-            if rec[3] != disp_account(r):
-                fails.append(Fail("csv", "account", disp_account(r), rec[3], "register account"))
-            if rec[4] != r.commodity:
-                fails.append(Fail("csv", "commodity", r.commodity, rec[4], "register commodity"))
-            if r.qty is not None and as_fraction(rec[5]) != r.qty:
-                fails.append(Fail("csv", "quantity", str(r.qty), rec[5], "register quantity"))
+            # and against the same expression evaluated by the register (two reports of one value must agree)
+            if how != "qty" and g != r.csv[j] and g == w:
+                fails.append(Fail("csv", kind_of_col(j), r.csv[j], g, "register evaluates %s differently; line: %s" % (cols[j], lines[i])))
     return fails, parsed_all
 
 
@@ -771,6 +826,21 @@ def boundary_cases():
                 if fix(kind, v) == v:
                     c = single_case(kind, v)
                     js.append(c.journal())
+    # every script in the posting note, the transaction note, both; one line and several lines; next to the
+    # characters join()/quoted() treat specially (the csv note column is the only field that goes through join())
+    for sc, letters in SCRIPTS.items():
+        w1, w2, w3 = letters, letters[::-1], letters[:2] + " " + letters[2:]
+        variants = [
+            ([], [w1]), ([w1], []), ([w2], [w1]),                                   # posting / transaction / both
+            ([], [w1, w2]), ([w1, w3], []), ([w1, w2], [w3, w1]),                   # several lines
+            ([], [w1 + ',"' + w2]), ([w1 + "'<&>"], [w2 + "\\n"]), ([], ["n" + w1, w2 + "n"]),
+        ]
+        for xn, pn in variants:
+            if any(fix("xnote", v) != v for v in xn) or any(fix("pnote", v) != v for v in pn):
+                continue
+            x = Xact("2020/01/02", "p", xnotes=[" " + v for v in xn],
+                     posts=[Post("A:b", Fraction(5), 0, "EUR", notes=[" " + v for v in pn]), Post("C:d")])
+            js.append(Case([x]).journal())
     cases = [RawCase(j, tag="boundary") for j in js]
     # the same special-character runs with options that change which postings are shown
     cases.append(RawCase(js[0] + "\n" + js[5], args=["--real"], tag="boundary"))
@@ -877,6 +947,8 @@ class Runner:
     def __init__(self, ctx, wd, csv_cols, dialect):
         self.ctx, self.wd, self.csv_cols, self.dialect = ctx, wd, csv_cols, dialect
         self.n = 0
+        global CSV_COLS
+        CSV_COLS = list(csv_cols)
 
     def run(self, cases):
         for c in cases:
@@ -1080,14 +1152,14 @@ def tie_cases(ctx, runner, executed):
                 continue
             if fmt == "csv":
                 for r in rows:
-                    lines.append("emit.csvrow\t" + enc_list(r.csv))
+                    lines.append("emit.csvrecord\t" + enc_list(raw_row(r, runner.csv_cols)))
                     idx.append((ci, "csvrow", None))
                 idx.append((ci, "csv-bytes", (len(rows), text)))
                 lines.append("emit.csvread\tledger\t" + enc(text))
                 idx.append((ci, "csvread", parsed.get("csv")))
             elif fmt == "csvrfc":
                 for r in rows:
-                    lines.append("emit.csvrowrfc\t" + enc_list(r.csv))
+                    lines.append("emit.csvrowrfc\t" + enc_list(joined_row(r, runner.csv_cols)))
                     idx.append((ci, "csvrowrfc", None))
                 idx.append((ci, "csvrfc-bytes", (len(rows), text)))
                 lines.append("emit.csvread\trfc\t" + enc(text))
@@ -1126,7 +1198,7 @@ def tie_cases(ctx, runner, executed):
             csvrowsrfc.setdefault(ci, []).append(dec(a[3:]) if a.startswith("ok\t") else None)
         elif what == "csvreadrfc":
             # quoted_rfc documents: the model reader must read every one of them back (C18.csv_rfc_roundtrip)
-            want = [r.csv for r in executed[ci][2]]
+            want = [joined_row(r, runner.csv_cols) for r in executed[ci][2]]
             got = [[dec(x) for x in row.split(",")[:-1]] for row in a[3:].split(";")[:-1]] if a.startswith("ok\t") else None
             if got != want:
                 ctx.tie_broken("corr:emit.csvread-rfc", "model RFC reader does not read ledger's quoted_rfc report back on %s: %r" % (where, a[:200]))
@@ -1142,7 +1214,7 @@ def tie_cases(ctx, runner, executed):
             else:
                 ctx.feature("model-csvread:malformed")
                 if payload is not None and None not in payload and len(payload) == len(executed[ci][2]) and \
-                        all(p == r.csv for p, r in zip(payload, executed[ci][2])):
+                        all(p == joined_row(r, runner.csv_cols) for p, r in zip(payload, executed[ci][2])):
                     ctx.tie_broken("corr:emit.csvread", "model reader rejects a document Python csv reads back exactly: %s" % where)
                     bad.add(ci)
         elif what == "emacsdoc":
